@@ -13,13 +13,14 @@ import sys
 
 VERIF = os.path.dirname(os.path.dirname(os.path.abspath(__file__)))
 CLAIMED = ["C01", "C02", "C03", "C05", "C06", "C07", "C08", "C09", "C14", "C17", "C18", "C19"]
-ORD = {6: "SIXTH", 7: "SEVENTH", 8: "EIGHTH", 9: "NINTH"}
+ORD = {6: "SIXTH", 7: "SEVENTH", 8: "EIGHTH", 9: "NINTH", 10: "TENTH", 11: "ELEVENTH", 12: "TWELFTH"}
 
 FOCUS = {
     6: """  * This round, look especially at: (a) the SHARED modules that the property's mechanism depends on but that are not its main file - src/pyrtma/message.py, header.py, message_data.py, message_base.py, validators.py, context.py, exceptions.py, constants / core_defs.py, client_logging.py, utils/ - a change there that is harmless for everything else; (b) behaviour that depends on HOW MANY times or IN WHAT ORDER something happened before (the second / third occurrence, an operation right after a failed or refused one, an operation on an object that was used for something else before); (c) values that are legal but sit at the edge of a representation (largest / smallest id, 16/32-bit wrap, empty / maximal payload, zero / negative / huge timeout, time stamps of 0 or far in the future); (d) the code's handling of PARTIAL progress (short reads and writes, a peer that goes away between two steps of one operation, an exception between two statements that belong together); (e) two objects of the same class living in one process (two clients, two managers one after the other, two data collections, two threads) that end up sharing something they must not share.""",
     7: """  * This round, look especially at: (a) what happens AFTER an error path was taken once (state left behind by a refused, failed, timed-out or interrupted operation, that makes a later perfectly ordinary operation go wrong); (b) pairs of operations that are each correct but whose combination in a particular order is not; (c) anything keyed, indexed, cached, sorted or compared by a value that can legally collide, repeat, wrap or be negative; (d) work that is skipped as an 'optimisation' when it looks unnecessary (already subscribed, nothing changed, same value as last time, empty list, zero bytes) in a case where it is in fact necessary; (e) resource ownership: who closes, removes, clears or resets what, and when.""",
     8: """  * This round, look especially at: (a) behaviour that depends on DURATIONS and DEADLINES (the periods of the manager's periodic messages, select / read / acknowledgement timeouts, sleeps, flush and subdivision periods, time stamps compared with < versus <=, clocks that jump or stand still); (b) behaviour that depends on how bytes are CHUNKED (short reads and short writes at every layer, a frame split at any offset, several frames in one read, zero-length reads and writes); (c) rarely failing calls that suddenly do fail or return something unusual (accept, getpeername, setsockopt, close, logging handlers, open / write / flush / rename of files: disk full, permission denied, EINTR), and the clean-up that must still happen afterwards; (d) Python object lifetime and identity (objects reused after reset, ids reused after garbage collection, default arguments evaluated once, class attributes that should be instance attributes, iteration order of sets and dicts, mutation during iteration); (e) formatting and parsing of numbers and text at their extremes in the text formats the project writes and reads back (JSON, CSV headers, names with separators, NaN / inf, 64-bit integers, non-ASCII).""",
     9: """  * This round, look especially at: (a) the parts of the PUBLIC API that are used less often and their interplay with the common ones (Client.send_signal / send_message_to_module / forward_message, discard_messages, wait_for_acknowledgement, read_message(ack=True), the context managers, Client.connect called repeatedly or with unusual server strings; DataCollection pause / resume / restart / update_metadata / rm_data_set / several recordings with one object; MessageManager constructed with timecode=True, debug=True, send_msg_timing=False, other addresses); (b) ALIASING and COPYING: objects handed back to the caller that share memory with internal buffers (from_buffer vs from_buffer_copy, memoryviews, slices of ctypes arrays, struct / struct-array accessors, default values shared between instances), and anything that is modified after it was queued or stored; (c) slices and indices with unusual but legal shapes (negative, stepped, empty, out-of-range that Python clamps), strings with embedded NUL or of exactly the maximum length, zero-sized arrays and messages; (d) numeric conversions between the wire format and Python (signed / unsigned, 16 / 32 / 64 bit, float32 rounding, bool); (e) behaviour after the object was used for something else before (a Client that was connected to another manager, a DataCollection that recorded before, a message object that is sent twice or modified between two sends).""",
+    10: """  * This round, think like someone who wants to slip a regression past a very thorough randomized test harness that drives the real code under a simulated network, a simulated clock and a controlled thread scheduler, and that compares the observed behaviour with a small reference model of the property. Such a harness is strong on the common protocol paths and weak wherever: (a) the bug needs a particular VALUE among very many (one specific id, size, count, time stamp or byte pattern - e.g. a message type equal to some constant, a payload whose first bytes look like something else, a count that is a multiple of 256 or 65536, a module id equal to a host id); (b) the bug needs a LONG history (thousands of messages on one connection, hundreds of reconnects, many reporting intervals, a counter that overflows, a table that grows and is never pruned, a cache that fills up); (c) the bug needs three or more independent conditions at the same time; (d) the wrong behaviour is only visible much LATER than its cause (state corrupted now, symptom after the next reconnect / restart / interval); (e) the behaviour is only wrong for ONE of several equivalent-looking variants (plain vs time-code header, CONNECT vs CONNECT_V2, logger vs ordinary module, dynamic vs fixed id, first vs later sub-message, json vs raw vs quicklogger).""",
 }
 
 
